@@ -393,7 +393,7 @@ func (w *World) RecordSignatures(op string, outs []Out, sigs cashu.BlindedSignat
 			continue
 		}
 		_, yhex := Y(p.Secret)
-		w.M.Proofs[p.Secret] = &MProof{P: p, Y: yhex, State: Unspent, PendingQ: -1, Locked: strings.HasPrefix(p.Secret, "[")}
+		w.M.Proofs[p.Secret] = &MProof{P: p, Y: yhex, State: Unspent, PendingQ: -1, Locked: strings.HasPrefix(strings.TrimSpace(p.Secret), "[")}
 		w.M.Order = append(w.M.Order, p.Secret)
 	}
 }
